@@ -883,6 +883,169 @@ func (w *c4worker) malformedGen() ([]byte, string) {
 	}
 }
 
+// ------------------------------------------------------------------ the Go decoders on arbitrary byte strings
+
+// Every byte string whose length is a multiple of the value width IS a conformant PLAIN /
+// BYTE_STREAM_SPLIT encoding (of the values the SPEC decoder reads): the Go decoder must return
+// exactly those (L1, independent decoder = Lean SPEC), into a dirty destination; any other length
+// is malformed (an accepted one is an observation). L2: outcome and bytes == the Lean mirror of the
+// Go decoder (goDecFixed, goDecFLBA, goBssDecFixed, goBssDecFLBA with the destination's content).
+func (w *c4worker) decoderCase(encName string, k c4kind, src []byte) {
+	ctx := w.b.ctx
+	var enc encoding.Encoding
+	if encName == "plain" {
+		enc = new(plain.Encoding)
+	} else {
+		enc = new(bytestreamsplit.Encoding)
+	}
+	srcHex := core.Hex(src)
+	ctx.Case("decode "+encName+" "+k.String()+" "+srcHex, len(src) >= 2*k.width)
+	wellFormed := len(src)%k.width == 0
+	ctx.Hist("decode.type", encName+" "+k.String())
+	ctx.Hist("decode.wellformed", fmt.Sprintf("%v", wellFormed))
+	ddst, dhow := c4DirtyValues(k, w.r, len(src))
+	draw, _ := ddst.Data()
+	stale := "-"
+	if cap(draw) >= len(src) && len(src) > 0 { // resize() re-slices: the 0xFF filling is what the decoder writes over
+		stale = strings.Repeat("ff", len(src))
+	}
+	detail := func(extra map[string]any) map[string]any {
+		m := map[string]any{"encoding": encName, "type": k.String(), "stream": c4short(srcHex), "decode_dst": dhow, "variant": w.b.variant}
+		for kk, v := range extra {
+			m[kk] = v
+		}
+		return m
+	}
+	outcome := ""
+	var back [][]byte
+	var flat []byte
+	func() {
+		defer func() {
+			if p := recover(); p != nil {
+				outcome = fmt.Sprintf("panic: %v", p)
+			}
+		}()
+		dv, err := c4Decode(k, enc, ddst, bytes.Clone(src))
+		if err != nil {
+			outcome = "err"
+			return
+		}
+		data, _ := dv.Data()
+		flat = bytes.Clone(data)
+		back, err = c4FromValues(k, dv, 0)
+		if err != nil {
+			outcome = "bad-result: " + err.Error()
+			return
+		}
+		outcome = "ok"
+	}()
+	sig := encName + "-" + k.name + "-decoder"
+	switch {
+	case wellFormed && outcome != "ok":
+		ctx.Fail("L1", sig+"-refuses-conformant-stream", "the Go decoder does not read a conformant stream: "+outcome, detail(nil))
+	case wellFormed:
+		var specReq, want string
+		if encName == "plain" {
+			specReq, want = fmt.Sprintf("plain.specdec %s %s", k.String(), srcHex), "ok "+c4toks(k, back)
+		} else {
+			specReq, want = fmt.Sprintf("bss.specdec %d %s", k.width, srcHex), "ok "+c4hexToks(back)
+		}
+		w.b.ask(specReq, func(ans string) {
+			if ans != want {
+				ctx.Fail("L1", sig+"-differs-from-spec-decoder", "the Go decoder and the SPEC decoder read different values from the same conformant stream",
+					detail(map[string]any{"go": c4short(want), "spec": c4short(ans)}))
+			}
+		})
+	case outcome == "ok":
+		ctx.Observe(sig+"-accepts-malformed-length", "a stream whose length is not a multiple of the value width is decoded without error", detail(nil))
+	case strings.HasPrefix(outcome, "panic"):
+		ctx.Observe(sig+"-panics-on-malformed-length", "a stream whose length is not a multiple of the value width makes the decoder panic", detail(map[string]any{"outcome": outcome}))
+	}
+	// L2
+	goAns := outcome
+	var req string
+	switch {
+	case k.name == "flba" && encName == "plain":
+		req = fmt.Sprintf("plain.godecflba %d %s", k.width, srcHex)
+		if outcome == "ok" {
+			goAns = "ok " + core.Hex(flat)
+		}
+	case k.name == "flba":
+		req = fmt.Sprintf("bss.godecflba %d %s %s", k.width, stale, srcHex)
+		if outcome == "ok" {
+			goAns = "ok " + core.Hex(flat)
+		}
+	case encName == "plain":
+		req = fmt.Sprintf("plain.godecfixed %d %s", k.width, srcHex)
+		if outcome == "ok" {
+			goAns = "ok " + c4toks(k, back)
+		}
+	default:
+		req = fmt.Sprintf("bss.godecfixed %d %s", k.width, srcHex)
+		if outcome == "ok" {
+			goAns = "ok " + c4toks(k, back)
+		}
+	}
+	if strings.HasPrefix(goAns, "panic") {
+		goAns = "panic"
+	}
+	w.b.ask(req, func(ans string) {
+		if ans != goAns {
+			ctx.Fail("L2", sig+"-mirror", "Go decoder outcome differs from its Lean mirror", detail(map[string]any{"go": c4short(goAns), "mirror": c4short(ans), "stale": c4short(stale)}))
+		}
+	})
+}
+
+// maxBytes bounds the stream: the Lean mirrors written in index form (list indexing, one `set` per
+// byte written) are quadratic in the stream length
+func (w *c4worker) decoderStream(k c4kind, maxBytes int) []byte {
+	r := w.r
+	m := []int{0, 1, 2, 3, 7, 8, 9, 15, 16, 17, 31, 32, 33, 63, 64, 65, 127, 128, 129}[r.Intn(19)]
+	if r.Intn(6) == 0 {
+		m = r.Intn(600)
+	}
+	if m*k.width > maxBytes {
+		m = maxBytes / k.width
+	}
+	n := m * k.width
+	if k.width > 1 && r.Intn(4) == 0 {
+		n += 1 + r.Intn(k.width-1)
+	}
+	s := make([]byte, n)
+	switch r.Intn(3) {
+	case 0:
+		r.Read(s)
+	case 1:
+		for i := range s {
+			s[i] = []byte{0x00, 0xFF, 0x80, 0x7F}[r.Intn(4)]
+		}
+	default:
+		for i := range s {
+			s[i] = byte(i)
+		}
+	}
+	return s
+}
+
+// PLAIN DecodeFixedLenByteArray evaluates len(src) % size before anything else about a zero size
+// (outside the assumption "size >= 1"; the BYTE_STREAM_SPLIT twin answers ErrInvalidArgument).
+func c4FLBASize0Probe(ctx *core.Ctx) {
+	for _, encName := range []string{"plain", "bss"} {
+		func() {
+			defer func() {
+				if p := recover(); p != nil {
+					ctx.Observe(encName+"-flba-decode-size0-panics", fmt.Sprintf("DecodeFixedLenByteArray with size 0 panics: %v", p), map[string]any{"encoding": encName})
+				}
+			}()
+			var enc encoding.Encoding = new(plain.Encoding)
+			if encName == "bss" {
+				enc = new(bytestreamsplit.Encoding)
+			}
+			enc.DecodeFixedLenByteArray(nil, []byte{1, 2, 3}, 0)
+		}()
+	}
+}
+
 // ------------------------------------------------------------------ dictionaries
 
 type c4dictType struct {
@@ -1415,7 +1578,7 @@ func (w *c4worker) replayCorpusLine(line string) {
 }
 
 func RunC04Plain(ctx *core.Ctx) {
-	ctx.SetRule("C04/plain: (encoding in {PLAIN, BYTE_STREAM_SPLIT}) x physical type x value list (boundary pools incl. NaN payloads/-0.0/extremes, small alphabets, noise; lengths 0..9, 15..17, 31..33, 63..65, 127..129, 255..257, 511..513, 1023..1025) x dirty destination; dictionary cases = type x pre-load x batch split x values; malformed PLAIN BYTE_ARRAY streams; distinct by canonical input text; non-trivial = at least 2 values (dictionary: at least 2 distinct values and at least one repeat; malformed: at least 5 bytes)")
+	ctx.SetRule("C04/plain: (encoding in {PLAIN, BYTE_STREAM_SPLIT}) x physical type x value list (boundary pools incl. NaN payloads/-0.0/extremes, small alphabets, noise; lengths 0..9, 15..17, 31..33, 63..65, 127..129, 255..257, 511..513, 1023..1025) x dirty destination; dictionary cases = type x pre-load x batch split x values; malformed PLAIN BYTE_ARRAY streams; Go PLAIN/BYTE_STREAM_SPLIT decoders on arbitrary byte strings (any multiple of the width is conformant) into dirty destinations; C04/dictpage: type x dictionary (1..300 distinct entries) x index page written by the harness (declared width needed..32, random RLE/bit-packed segmentation, padded last group; conformant / short / id outside the dictionary) x recycled index buffer (capacity 0, <n, =n, >n; content last id / beyond / random / zero), and hand-assembled files of 1..4 data pages read three times; distinct by canonical input text; non-trivial = at least 2 values (dictionary: at least 2 distinct values and at least one repeat; malformed: at least 5 bytes; decoders: at least 2 widths of bytes; dictpage: num_values >= 2; files: at least 2 data pages)")
 	nw := runtime.GOMAXPROCS(0)
 	if nw > 12 {
 		nw = 12
@@ -1426,8 +1589,8 @@ func RunC04Plain(ctx *core.Ctx) {
 	plainKinds := []c4kind{c4Bool, c4Int32, c4Int64, c4Int96, c4Float, c4Double, c4Bytes, c4FLBA(1), c4FLBA(2), c4FLBA(3), c4FLBA(5), c4FLBA(12), c4FLBA(16), c4FLBA(17), c4FLBA(33)}
 	bssKinds := []c4kind{c4Int32, c4Int64, c4Float, c4Double, c4FLBA(1), c4FLBA(2), c4FLBA(3), c4FLBA(4), c4FLBA(5), c4FLBA(7), c4FLBA(8), c4FLBA(12), c4FLBA(16), c4FLBA(17), c4FLBA(33)}
 	dictTypes := c4DictTypes()
-	perKind := ctx.Scale(2600, 26000) // cases per (encoding, type) for the numeric kinds, summed over workers
-	maxLen := ctx.Scale(1100, 6000)
+	perKind := ctx.Scale(2600, 4000) // cases per (encoding, type) for the numeric kinds, summed over workers
+	maxLen := ctx.Scale(1100, 1600)
 
 	// corpus first (one worker), then the deterministic probes
 	{
@@ -1451,6 +1614,7 @@ func RunC04Plain(ctx *core.Ctx) {
 	for _, t := range dictTypes {
 		c4LongerIndexesProbe(ctx, t)
 	}
+	c4FLBASize0Probe(ctx)
 
 	var wg sync.WaitGroup
 	for _, t := range dictTypes {
@@ -1514,22 +1678,37 @@ func RunC04Plain(ctx *core.Ctx) {
 			}
 			lap("bools")
 			// malformed BYTE_ARRAY streams
-			for i := 0; i < share(ctx.Scale(6000, 60000)); i++ {
+			for i := 0; i < share(ctx.Scale(6000, 30000)); i++ {
 				s, origin := w.malformedGen()
 				w.malformedCase(s, origin)
 			}
 			lap("malformed")
+			// the Go decoders on arbitrary byte strings (conformant = any multiple of the width)
+			for _, k := range plainKinds {
+				if k.name == "bool" || k.name == "bytes" {
+					continue
+				}
+				for i := 0; i < share(ctx.Scale(240, 700)); i++ {
+					w.decoderCase("plain", k, w.decoderStream(k, 4096))
+				}
+			}
+			for _, k := range bssKinds {
+				for i := 0; i < share(ctx.Scale(240, 700)); i++ {
+					w.decoderCase("bss", k, w.decoderStream(k, 768))
+				}
+			}
+			lap("decoders")
 			// dictionaries
 			for _, t := range dictTypes {
-				for i := 0; i < share(ctx.Scale(1200, 10000)); i++ {
-					c := w.dictGen(t, ctx.Scale(2600, 9000))
+				for i := 0; i < share(ctx.Scale(1200, 3000)); i++ {
+					c := w.dictGen(t, ctx.Scale(2600, 4000))
 					if wi == 0 && i == 0 {
 						ctx.Sample(map[string]any{"dictionary": c4short(c.canon())})
 					}
 					w.dictCase(c)
 				}
 				if t.k.name != "bool" {
-					for i := 0; i < share(ctx.Scale(60, 600)); i++ {
+					for i := 0; i < share(ctx.Scale(60, 300)); i++ {
 						// pre-loaded page with one duplicated entry, then values that occur after the duplicate or are new
 						a := c4Value(t.k, r, 2)
 						b := c4Value(t.k, r, 2)
